@@ -242,6 +242,25 @@ func runC18(c *Ctx) {
 			c.Unk("C18.H3-make-read-pairs", mk.Name+" › request literal", mk.SSA.Pos(), "no IngestRequest built in the constructor")
 		}
 	}
+	// the reader can consume what the constructor sealed in any process: the request's record type is registered with
+	// the envelope package at package initialisation (not lazily by the constructor — a process that only reads would
+	// reject every genuine request as an unregistered payload type), or by the reader itself before it consumes
+	{
+		nReg, okReg := 0, false
+		for _, f := range c.Funcs(modelPkg) {
+			for _, cs := range c.Calls(f.SSA, Call("record.RegisterType")) {
+				nReg++
+				top := topFunc(cs.Fn)
+				if strings.HasPrefix(top.Name(), "init") && top.Signature.Recv() == nil && top.Signature.Params().Len() == 0 {
+					okReg = true
+				}
+			}
+		}
+		if rd := c.Func(modelPkg, "ReadIngestRequest"); rd != nil && !okReg {
+			okReg = len(c.CallsInl(rd.SSA, Call("record.RegisterType"), 3)) > 0
+		}
+		c.Check(okReg && nReg > 0, "C18.H3-make-read-pairs", "ingest/model › request record type registered for readers", token.NoPos, "the ingest request's record type is registered at package initialisation (or by the reader)", "the ingest request's record type is not registered at package initialisation nor by the reader: a process that reads requests without having built one rejects every genuine request")
+	}
 	c.Floor("C18.H3-make-read-pairs", 5)
 }
 
